@@ -31,6 +31,7 @@ from hypothesis import strategies as st
 
 from vlib import gen, findings
 from vlib.build import build_obs, chain_samples, ens_of
+from vlib.util import common_spacing
 from vlib.core import Sub, Violation, require
 from vlib.wellformed import wellformed_obs
 
@@ -426,8 +427,9 @@ def build_single(ctx, lay, od, rw, gm):
     if gm:
         try:
             o.gamma_method()
-        except ValueError:      # replicas without common spacing: the analysis is not defined for this layout
-            pass
+        except Exception:      # replicas without common spacing: the analysis is not defined for this layout
+            if common_spacing(o):
+                raise
     # magnitude of the raw samples per ensemble
     emag = {}
     for c in spec['chains']:
@@ -541,14 +543,16 @@ def cmp_analysis(o, s, r, what, ctx, exact=False, r_analysed=False):
         require(grab_analysis(r) == s.analysis, pre + 'stored results of the error analysis changed', grab_analysis(r), s.analysis)
     try:
         o.gamma_method()
-    except ValueError as e:
+    except Exception as e:
         # the layout violates the precondition of the Gamma method (no common spacing): identical behaviour = the same refusal
+        if common_spacing(o):
+            raise
         try:
             r.gamma_method()
-        except ValueError:
+        except Exception:
             ctx.labels.add('analysis:undefined_on_both')
             return
-        raise Violation(pre + 'gamma_method refuses the original (%s) but accepts the re-imported observable' % (e.args[0],))
+        raise Violation(pre + 'gamma_method refuses the original (%r) but accepts the re-imported observable' % (e,))
     if not (r_analysed and hasattr(r, 'e_dvalue')):
         # r_analysed: the loader was asked to run the default analysis itself (auto_gamma=True); whether it did is a
         # promise of its docstring, not of C11, so a missing analysis is only made up for here
